@@ -537,6 +537,14 @@ ADAPTORS = {
 
 
 def adaptor(kind):
+    """`kind@start=3,end=10`: the adaptor with the options that give it PHASES (adapt only inside [start, end], every-k updates, …)"""
+    if "@" in kind:
+        kind, _, opts = kind.partition("@")
+        a = adaptor(kind)
+        for kv in opts.split(","):
+            k_, _, v_ = kv.partition("=")
+            a[k_] = int(v_)
+        return a
     if kind.startswith("ass"):
         a = {"id": "ad.ss", "type": "AdaptiveStepSize", "integrator": "leap"}
         if kind == "ass-rate":
@@ -552,7 +560,7 @@ def adaptor(kind):
     return a
 
 
-def spec_mcmc(ops, adaptors, iters, freq, forms=None, pdtype=None, inline=None):
+def spec_mcmc(ops, adaptors, iters, freq, forms=None, pdtype=None, inline=None, hmc_options=None):
     from torchtree.evolution.tree_model import TimeTreeModel
 
     if forms:
@@ -614,6 +622,7 @@ def spec_mcmc(ops, adaptors, iters, freq, forms=None, pdtype=None, inline=None):
                                 else {"id": "mm", "type": "Parameter", "ones_like": "h"}),
                 "adaptors": [adaptor("mma" if a == "mma-dense" else a) for a in adaptors]},
     }
+    mk["hmc"].update(hmc_options or {})
     s.append({"id": "mcmc", "type": "MCMC", "joint": "joint", "iterations": iters, "checkpoint": "ck.json",
               "checkpoint_frequency": freq, "every": 0, "operators": [mk[o] for o in ops],
               "loggers": [{"id": "log", "type": "Logger", "parameters": logged, "file_name": "log.csv"}]})
@@ -794,7 +803,9 @@ class Runner:
         self.check_tables(full.algo, cfg)
         n_iter = len(full.rec)
         ks = sorted(full.snaps)
-        if points == "some" and len(ks) > 2:
+        if cfg.get("at"):
+            ks = [k for k in ks if k in cfg["at"]]  # interruption points placed around the phase boundaries of the configuration
+        elif points == "some" and len(ks) > 2:
             ks = sorted(ck.rng.sample(ks[:-1], 1) + [ks[-1]])
         loop = {"Optimizer": "Optimizer._run_closure" if cfg.get("algo") == "LBFGS" else "Optimizer._run", "MCMC": "MCMC.run",
                 "HMC": "HMC.run"}[kind]
@@ -1287,6 +1298,43 @@ def opt_configs(ck: Check):
     return cfgs
 
 
+def around(*boundaries, far=None):
+    """interruption points just before, at and just after every phase boundary, plus one long after the last"""
+    pts = set()
+    for b in boundaries:
+        pts.update({b - 1, b, b + 1})
+    if far:
+        pts.add(far)
+    return sorted(p_ for p_ in pts if p_ >= 1)
+
+
+def phase_configs():
+    """every adaptor / operator option that introduces a PHASE (adaptation window [start, end], threshold counters, every-k
+    updates, periodic restarts, initial step-size search, adaptation switched off), checkpoint after EVERY iteration and
+    interruption points on both sides of each boundary. HMC alone: the adaptor's call counter is the iteration; with a second
+    operator the two drift apart and every second point of 1..24 is taken."""
+    P = []
+
+    def add(label, specs, at, iters=24, ops=("hmc",), **kw):
+        P.append(dict({"ops": list(ops), "adaptors": label, "adaptor_specs": specs, "iters": iters, "freq": 1, "at": at, "twice": True}, **kw))
+
+    add("dass[start=3,end=10]", ["dass@start=3,end=10"], around(3, 10, far=20))
+    add("dass[end=6]", ["dass@end=6"], around(6, far=18), iters=20)
+    add("ass[start=4,end=9]", ["ass@start=4,end=9"], around(4, 9, far=18), iters=20)
+    add("ass-rate[end=14]", ["ass-rate@end=14"], around(10, 14, far=21))  # the acceptance-rate variant waits for 10 calls
+    add("mma[start=3,end=12,update_frequency=4]", ["mma@start=3,end=12,update_frequency=4"], around(3, 8, 12, far=20))
+    add("mma[restart_frequency=6]", ["mma@restart_frequency=6,update_frequency=2"], around(6, 12, far=17), iters=18)
+    add("mma[end=10]+dass[end=8]", ["mma@end=10,update_frequency=2", "dass@end=8"], around(8, 10, far=18), iters=20)
+    add("mma-swap[swap_every=4,end=10]", ["mma-swap:4@end=10,update_frequency=2"], around(4, 8, 10, far=15), iters=16)
+    add("mma-window[end=8]+ass[end=5]", ["mma-window@end=8,update_frequency=2", "ass@end=5"], around(5, 8, far=14), iters=16)
+    add("dass[end=6],find_reasonable_step_size", ["dass@end=6"], around(1, 6, far=14), iters=16, hmc_options={"find_reasonable_step_size": True})
+    add("dass[end=6],disable_adaptation", ["dass@end=6"], around(6, far=12), iters=14, hmc_options={"disable_adaptation": True})
+    # a second operator: the adaptor's call counter is no longer the iteration number, so every point
+    add("dass[end=6] next to a sliding window", ["dass@end=6"], list(range(1, 25, 2)) + [24], ops=("sliding", "hmc"))
+    add("mma[end=8]+ass[start=3,end=6] next to a scaler", ["mma@end=8,update_frequency=2", "ass@start=3,end=6"], list(range(2, 25, 2)), ops=("scaler", "hmc"))
+    return P
+
+
 def mcmc_configs(ck: Check):
     rng = ck.rng
     cfgs = []
@@ -1310,6 +1358,7 @@ def mcmc_configs(ck: Check):
     # referenced and inline shapes)
     for f_, ad in (("A", "mma+dass"), ("B", "mma-dense"), ("C", "mma-dense")):
         cfgs.append({"ops": ["sliding", "scaler", "dirichlet", "hmc"], "adaptors": ad, "forms": f_, "iters": 12, "freq": 4, "points": "all", "twice": True})
+    cfgs += phase_configs()
     cfgs.append({"ops": ["sliding", "scaler"], "adaptors": "none", "inline": "unsaved", "iters": 8, "freq": 4, "points": "all"})
     cfgs.append({"ops": ["sliding", "scaler"], "adaptors": "none", "inline": "saved", "iters": 8, "freq": 4, "points": "all"})
     # parameter dtype declared in the configuration and different from the default dtype of the run
@@ -1363,7 +1412,8 @@ def run_cfg(runner: Runner, kind, cfg, points):
         fn = lambda: spec_hmc(cfg["iters"], cfg["freq"], cfg.get("dense", False))  # noqa: E731
         args = ["--dtype", cfg["dtype"], "-s", str(cfg["seed"])]
     else:
-        fn = lambda: spec_mcmc(cfg["ops"], ADAPTORS[cfg["adaptors"]], cfg["iters"], cfg["freq"], cfg.get("forms"), cfg.get("pdtype"), cfg.get("inline"))  # noqa: E731
+        fn = lambda: spec_mcmc(cfg["ops"], cfg.get("adaptor_specs") or ADAPTORS[cfg["adaptors"]], cfg["iters"], cfg["freq"], cfg.get("forms"),  # noqa: E731
+                               cfg.get("pdtype"), cfg.get("inline"), cfg.get("hmc_options"))
         args = ["--dtype", cfg["dtype"], "-s", str(cfg["seed"])]
     if cfg.get("inline") == "saved":
         inline_in_saved_parameter(runner, cfg, fn, args)
